@@ -136,8 +136,11 @@ def run(ctx):
     cols = [c.split('.')[-1] for c in inf['cols']]
     tv = [e.id for e in rl.target.elts] if isinstance(rl.target, ast.Tuple) else []
     where = [w.replace('Obj.', '').replace(' ', '') for w in inf['where']]
-    if cols == tv and where == ['pack_id==pack_id'] and [o.split('.')[-1] for o in inf['order_by']] == ['offset'] and not inf.get('limit'):
-        chk.ok(R2, VPK, f"SELECT {cols} WHERE {inf['where']} ORDER BY offset", detail='all rows of the pack, in offset order, unpacked positionally into like-named variables')
+    var_of = dict(zip(cols, tv)) if len(cols) == len(tv) else {}
+    for need in ('hashkey', 'size', 'offset', 'length', 'compressed'):
+        var_of.setdefault(need, '<no variable bound to column %s>' % need)
+    if len(cols) == len(tv) and len(set(tv)) == len(tv) and where == ['pack_id==pack_id'] and [o.split('.')[-1] for o in inf['order_by']] == ['offset'] and not inf.get('limit'):
+        chk.ok(R2, VPK, f"SELECT {cols} WHERE {inf['where']} ORDER BY offset", detail=f'all rows of the pack, in offset order; column -> variable: {var_of}')
     else:
         chk.bad(R2, VPK, norm(rl.iter)[:100], f'rows are not (all rows of this pack ordered by offset) unpacked into like-named variables: cols={cols} vars={tv} where={inf["where"]} order={inf["order_by"]} '
                 f'limit={inf.get("limit")} -- any further filter / paging (e.g. on the non-unique offset column) can skip rows, whose damage then goes unreported',
@@ -153,22 +156,22 @@ def run(ctx):
     rets = [n for n in walk_local(p.node) if isinstance(n, ast.Return) and isinstance(n.value, ast.Dict)]
     chk.require(rets, '_validate_hashkeys_pack: returned dict not found')
     rd = {k.value: norm(val) for k, val in zip(rets[-1].value.keys, rets[-1].value.values) if isinstance(k, ast.Constant)}
-    for label, lhs, rhs in (('hash', hv, 'hashkey'), ('size', sv, 'size')):
+    for label, lhs, rhs in (('hash', hv, var_of['hashkey']), ('size', sv, var_of['size'])):
         r = failing_branch_appends(p, lhs, rhs)
         okc = False
         if r is not None:
             n, apps = r
-            okc = isinstance(n.test.ops[0], ast.NotEq) and apps and norm(apps[0].args[0]) == 'hashkey' and norm(apps[0].func.value) in rd.values() and getattr(n, '_parent', None) is rl
+            okc = isinstance(n.test.ops[0], ast.NotEq) and {norm(n.test.left), norm(n.test.comparators[0])} == {lhs, rhs} and apps and norm(apps[0].args[0]) == var_of['hashkey'] and norm(apps[0].func.value) in rd.values() and getattr(n, '_parent', None) is rl
         if okc:
             chk.ok(R2, VPK, norm(r[0].test), detail=f'{label} mismatch records the key in `{norm(r[1][0].func.value)}`')
         else:
             chk.bad(R2, VPK, f'{label} comparison', f'the recomputed {label} is not compared with the recorded one for every row (or a mismatch is not recorded)', where=f'{p.module.relpath}:{rl.lineno}')
     ov = None
     for n in rl.body:
-        if isinstance(n, ast.If) and isinstance(n.test, ast.Compare) and norm(n.test.left) == 'offset' and isinstance(n.test.ops[0], ast.Lt):
+        if isinstance(n, ast.If) and isinstance(n.test, ast.Compare) and norm(n.test.left) == var_of['offset'] and isinstance(n.test.ops[0], ast.Lt):
             ov = n
     pos_updates = [n for n in rl.body if isinstance(n, ast.Assign) and ov is not None and norm(n.targets[0]) == norm(ov.test.comparators[0])]
-    okov = ov is not None and pos_updates and norm(pos_updates[0].value).replace(' ', '') in ('offset+length', 'length+offset') \
+    okov = ov is not None and pos_updates and norm(pos_updates[0].value).replace(' ', '') in (f"{var_of['offset']}+{var_of['length']}", f"{var_of['length']}+{var_of['offset']}") \
         and any(isinstance(c, ast.Call) and isinstance(c.func, ast.Attribute) and c.func.attr == 'append' for c in ast.walk(ov)) and rl.body.index(pos_updates[0]) > rl.body.index(ov)
     if okov:
         chk.ok(R2, VPK, f'{norm(ov.test)} ; {norm(pos_updates[0])}', detail='strict overlap test against the end of the previous row')
